@@ -23,6 +23,7 @@ type preloadCase struct {
 	ReadFail int   `json:"readfail"`
 	DecErr   int   `json:"decerr"`
 	Order    []int `json:"order"`
+	Pre      int   `json:"pre"` // slabs already in the read cache before the call (none of the jobs)
 }
 
 type preloadOutcome struct {
@@ -33,6 +34,7 @@ type preloadOutcome struct {
 	CacheOK  bool   `json:"cacheok"` // every cached slab re-encodes to its register
 	Extra    int    `json:"extra"`   // cache entries that are none of the jobs
 	Gated    int    `json:"gated"`
+	PreKept  int    `json:"prekept"` // previously cached slabs still in the read cache after the call
 }
 
 type preloadRec struct {
@@ -59,6 +61,13 @@ func runPreload(c preloadCase, workers int, gate bool, jitter *rand.Rand) preloa
 		}
 		ids = append(ids, a.SlabID())
 	}
+	preIDs := []atree.SlabID{}
+	for i := 0; i < c.Pre; i++ {
+		a, err := atree.NewArray(st, addr, testutils.NewSimpleTypeInfo(uint64(90+i)))
+		must(err)
+		must(a.Append(testutils.Uint64Value(uint64(7000 + i))))
+		preIDs = append(preIDs, a.SlabID())
+	}
 	must(st.FastCommit(1))
 	pos := map[atree.SlabID]int{}
 	for i, id := range ids {
@@ -74,6 +83,14 @@ func runPreload(c preloadCase, workers int, gate bool, jitter *rand.Rand) preloa
 		ledger.Regs[id] = append([]byte(nil), b[:len(b)-1]...) // truncated register: decoding fails
 	}
 	cold := newStorage(ledger)
+	for _, id := range preIDs {
+		_, _, err := cold.Retrieve(id) // served from the ledger, kept in the read cache
+		must(err)
+	}
+	isPre := map[atree.SlabID]bool{}
+	for _, id := range preIDs {
+		isPre[id] = true
+	}
 	var mu sync.Mutex
 	cond := sync.NewCond(&mu)
 	next, released := 0, 0
@@ -129,6 +146,10 @@ func runPreload(c preloadCase, workers int, gate bool, jitter *rand.Rand) preloa
 	out.Gated = released
 	out.CacheOK = true
 	for id, s := range atree.VerifCache(cold) {
+		if isPre[id] && s != nil {
+			out.PreKept++
+			continue
+		}
 		j, isJob := pos[id]
 		if !isJob || s == nil {
 			out.Extra++
